@@ -314,7 +314,7 @@ func (m *Machine) exec(fr *frame, ins ssa.Instruction) {
 		switch a := x.(type) {
 		case *ArrayV:
 			if _, scalar := i.X.Type().Underlying().(*types.Array).Elem().Underlying().(*types.Basic); scalar && !idx.IsConst() && len(a.E) > 8 && !isString(i.X.Type().Underlying().(*types.Array).Elem()) {
-				if !m.Branch(m.S.ULt(idx, m.S.Const(idx.W, uint64(len(a.E))))) {
+				if !m.Branch(m.inRange(idx, len(a.E))) {
 					m.goPanicStr(fmt.Sprintf("runtime error: index out of range [symbolic] with length %d", len(a.E)))
 				}
 				tmp := m.newObject(i.X.Type(), a, "tmparray")
@@ -344,7 +344,7 @@ func (m *Machine) exec(fr *frame, ins ssa.Instruction) {
 			}
 			if _, scalar := at.Elem().Underlying().(*types.Basic); scalar && !idx.IsConst() && n > 8 && n <= 4096 && !isString(at.Elem()) && a.Sym == nil {
 				// symbolic index into a scalar table: keep it symbolic (select) instead of forking on its value
-				if !m.Branch(m.S.ULt(idx, m.S.Const(idx.W, uint64(n)))) {
+				if !m.Branch(m.inRange(idx, n)) {
 					m.goPanicStr(fmt.Sprintf("runtime error: index out of range [symbolic] with length %d", n))
 				}
 				fr.regs[i] = Ptr{Obj: a.Obj, Path: a.Path, Sym: idx}
@@ -451,11 +451,18 @@ func (m *Machine) index(idx *Term, n int) int {
 		}
 		return int(k)
 	}
-	in := m.S.ULt(idx, m.S.Const(idx.W, uint64(n)))
-	if !m.Branch(in) {
+	if !m.Branch(m.inRange(idx, n)) {
 		m.goPanicStr(fmt.Sprintf("runtime error: index out of range [symbolic] with length %d", n))
 	}
 	return int(m.Concretize(idx, "index"))
+}
+
+// inRange: 0 ≤ idx < n for an index term of any width (signed indices are negative when huge unsigned).
+func (m *Machine) inRange(idx *Term, n int) *Term {
+	if idx.W < 64 && uint64(n) > mask(idx.W) {
+		return m.S.True
+	}
+	return m.S.ULt(idx, m.S.Const(idx.W, uint64(n)))
 }
 
 // lenArg concretises a length/capacity argument (panics in Go when negative).
